@@ -1112,6 +1112,56 @@ theorem C05_serve_replies_contiguous {α : Type} (p : Prog α) (sched : List Act
   rw [h]
   simp [Prog.job, hk, List.append_assoc]
 
+open SendKinds in
+/-- **what a serve iteration writes is a sequence of complete top-level elements, or the session
+ends** (rule of session.go since the serve-loop fixes: `deferWriter.abandoned`): for every list of
+tokens the handler got accepted, with or without a refused token, answered or not, and every
+well-formed automatic reply — either the iteration reports `errOutputBroken` and NOTHING is
+written after the handler's tokens, or its block (`reply`, or `reply ++ auto`) is balanced: the
+automatic reply is a top-level element of the stream and the next call (`C05_kinds_atomic`)
+finds the encoder at depth 0 -/
+theorem C05_serve_iteration_whole_or_ends (needsResp : Bool) (id : String) (reply : List Tok)
+    (refused : Bool) (auto : List Tok) (ha : balanced auto = true) :
+    ((serveIter needsResp id reply refused auto).2 = true ∧
+        (serveIter needsResp id reply refused auto).1 = reply ∧ abandoned reply refused = true) ∨
+    ((serveIter needsResp id reply refused auto).2 = false ∧
+        balanced (serveIter needsResp id reply refused auto).1 = true ∧
+        ((serveIter needsResp id reply refused auto).1 = reply ∨
+         (serveIter needsResp id reply refused auto).1 = reply ++ auto)) := by
+  unfold serveIter
+  by_cases hab : abandoned reply refused = true
+  · left; simp [hab]
+  · right
+    have hb : depthAfter 0 reply = some 0 := by
+      simp only [abandoned, Bool.or_eq_true, bne_iff_ne, ne_eq, not_or, Bool.not_eq_true] at hab
+      exact Classical.not_not.mp hab.2
+    have ha' : depthAfter 0 auto = some 0 := by simpa [balanced] using ha
+    simp only [hab, Bool.false_eq_true, if_false]
+    split
+    · refine ⟨rfl, ?_, Or.inr rfl⟩
+      simp [balanced, depthAfter_append, hb, ha']
+    · refine ⟨rfl, ?_, Or.inl rfl⟩
+      simp [balanced, hb]
+
+def openReply : List Tok := [.start ⟨"urn:a", "x"⟩ []]
+def autoErr : List Tok :=
+  [.start ⟨"", "iq"⟩ [⟨⟨"", "type"⟩, "error"⟩, ⟨⟨"", "id"⟩, "q1"⟩], .start ⟨"", "error"⟩ [], .stop ⟨"", "error"⟩, .stop ⟨"", "iq"⟩]
+
+open SendKinds in
+/-- **the rule is necessary**: without it, a handler that returns nil with `<x>` open gets the
+automatic reply of its unanswered IQ nested inside `<x>` (not a top-level element: the block is
+not balanced); with it the iteration ends the session after the handler's tokens.  A refused
+token has the same effect, and a complete answer suppresses the automatic reply. -/
+theorem C05_serve_auto_reply_nests_without_check :
+    serveIterNoCheck true "q1" openReply autoErr = openReply ++ autoErr ∧
+    balanced (serveIterNoCheck true "q1" openReply autoErr) = false ∧
+    serveIter true "q1" openReply false autoErr = (openReply, true) ∧
+    serveIter true "q1" [] true autoErr = ([], true) ∧
+    serveIter true "q1" [] false autoErr = (autoErr, false) ∧
+    serveIter true "q1" autoErr false autoErr = (autoErr, false) ∧
+    serveIter false "q1" [] false autoErr = ([], false) := by
+  decide
+
 /-- a session on which a handle writes `<a>…`, two one-shot calls transmit and the serve loop
 answers an IQ (handler reply `r1 r2`, then the automatic reply `e`), with handler and user code
 between the writes -/
